@@ -86,6 +86,11 @@ def composite_pieces():
                       rules=[R('for (const auto &p : dict_) {', 'for (unsigned p__k = 0; p__k < dict_.size(); p__k++) { umap_pair p = dict_.at(p__k);', n=1,
                                why="range-for over the unordered term dictionary -> index loop over the stub (iteration order is an arbitrary permutation), body verbatim")] + CTOK))
     comp.append(Piece('symengine/add.cpp', r'bool Add::__eq__\(const Basic &o\) const', rules=CTOK))
+    comp.append(Piece('symengine/mul.cpp', r'hash_t Mul::__hash__\(\) const',
+                      rules=[R('for (const auto &p : dict_) {', 'for (mapit p__i = dict_.begin(); p__i != dict_.end(); ++p__i) { umap_pair p = *p__i;', n=1,
+                               why="range-for over the ordered factor dictionary -> iterator loop over the stub, body verbatim")] + CTOK))
+    comp.append(Piece('symengine/mul.cpp', r'bool Mul::__eq__\(const Basic &o\) const', rules=CTOK))
+    comp.append(Piece('symengine/mul.cpp', r'int Mul::compare\(const Basic &o\) const', rules=CTOK))
     free = [Piece('symengine/basic-inl.h', r'inline hash_t Basic::hash\(\) const'),
             Piece('symengine/basic-inl.h', r'inline bool eq\(const Basic &a, const Basic &b\)'),
             Piece('symengine/basic-inl.h', r'inline bool neq\(const Basic &a, const Basic &b\)')]
@@ -106,6 +111,23 @@ def composite_pieces():
     ordered = [Piece('symengine/dict.h', osig, rules=[R(r'template <class T>\s*inline int ordered_compare\(const T &A, const T &B\)', 'inline int ordered_compare(const vec3 &A, const vec3 &B)', n=1, regex=True, why="template header -> the instantiation for the vector stub"),
                                                        R('auto a = A.begin();', 'RCPBasic *a = A.begin();', n=1, why="auto -> the iterator type (a pointer in the stub)"), R('auto b = B.begin();', 'RCPBasic *b = B.begin();', n=1),
                                                        R('auto t = unified_compare', 'int t = unified_compare', n=1, why="auto -> int")], name='ordered_compare<vector>')]
+    oeq = r'template <class T>\s*inline bool ordered_eq\(const T &A, const T &B\)'
+    peq = r'template <typename T, typename U>\s*inline bool unified_eq\(const std::pair<T, U> &a, const std::pair<T, U> &b\)'
+    pcmp = r'template <typename T, typename U>\s*inline int unified_compare\(const std::pair<T, U> &a, const std::pair<T, U> &b\)'
+    meq = r'template <typename K, typename V, typename C>\s*inline bool unified_eq\(const std::map<K, V, C> &a, const std::map<K, V, C> &b\)'
+    mcmp = r'template <typename K, typename V, typename C>\s*inline int unified_compare\(const std::map<K, V, C> &a,\s*const std::map<K, V, C> &b\)'
+    ordered = [
+        Piece('symengine/dict.h', peq, rules=[R(peq, 'inline bool unified_eq(const umap_pair &a, const umap_pair &b)', n=1, regex=True, why="template header -> the instantiation for pair<RCP, RCP>")], name='unified_eq<pair>'),
+        Piece('symengine/dict.h', pcmp, rules=[R(pcmp, 'inline int unified_compare(const umap_pair &a, const umap_pair &b)', n=1, regex=True, why="template header -> the instantiation for pair<RCP, RCP>"),
+                                               R('auto t = unified_compare', 'int t = unified_compare', n=1, why="auto -> int")], name='unified_compare<pair>'),
+        Piece('symengine/dict.h', oeq, rules=[R(oeq, 'inline bool ordered_eq(const map_basic_basic &A, const map_basic_basic &B)', n=1, regex=True, why="template header -> the instantiation for the ordered-map stub"),
+                                              R('auto a = A.begin();', 'mapit a = A.begin();', n=1, why="auto -> the iterator type of the stub"), R('auto b = B.begin();', 'mapit b = B.begin();', n=1)], name='ordered_eq<map>'),
+        Piece('symengine/dict.h', osig, rules=[R(osig, 'inline int ordered_compare(const map_basic_basic &A, const map_basic_basic &B)', n=1, regex=True, why="template header -> the instantiation for the ordered-map stub"),
+                                               R('auto a = A.begin();', 'mapit a = A.begin();', n=1, why="auto -> the iterator type of the stub"), R('auto b = B.begin();', 'mapit b = B.begin();', n=1),
+                                               R('auto t = unified_compare', 'int t = unified_compare', n=1, why="auto -> int")], name='ordered_compare<map>'),
+        Piece('symengine/dict.h', meq, rules=[R(meq, 'inline bool unified_eq(const map_basic_basic &a, const map_basic_basic &b)', n=1, regex=True, why="template header -> the instantiation for map_basic_basic")], name='unified_eq<map>'),
+        Piece('symengine/dict.h', mcmp, rules=[R(mcmp, 'inline int unified_compare(const map_basic_basic &a, const map_basic_basic &b)', n=1, regex=True, why="template header -> the instantiation for map_basic_basic")], name='unified_compare<map>'),
+    ] + ordered
     keyless = [Piece('symengine/basic.h', r'struct RCPBasicKeyLess \{', region_end=r'^\};', rules=CTOK, name='struct RCPBasicKeyLess')]
     return {'ordered.inc': ordered, 'keyless.inc': keyless, 'unified.inc': unified, 'hc.inc': hc, 'hcb.inc': hcb, 'free.inc': free, 'twoarg_inline.inc': two, 'onearg_inline.inc': one, 'comp.inc': comp}
 
@@ -117,11 +139,18 @@ COMP_TRUSTED = [
 
 def composite_unit(prop, Unit, Entry):
     ents = []
-    for cls, nm in ((1, 'Pow'), (2, 'Interval'), (3, 'TwoArgBasic'), (4, 'OneArgFunction'), (5, 'Add'), (6, 'Complement'), (7, 'Contains')):
+    for cls, nm in ((1, 'Pow'), (2, 'Interval'), (3, 'TwoArgBasic'), (4, 'OneArgFunction'), (5, 'Add'), (6, 'Complement'), (7, 'Contains'), (10, 'Mul')):
         h = 'h_comp_c01' if prop == 'C01' else 'h_comp_c02'
         if prop == 'C02' and cls == 5:
             continue
         d = {'CLS': cls, 'CLSNAME': '"%s"' % nm}
+        if cls == 10:
+            # same 64-bit mixing problem as Add for C01 (five chained hash_combine calls per object): 16-bit hash_t; C02 does not hash
+            if prop == 'C01':
+                d['VERIF_HASH_BITS16'] = 1
+            ents.append(Entry(h, defines=d, route='B', timeout=900, mem_gb=6, unwind=8, label="%s_%s" % (h, nm),
+                              bounds=("hash_t narrowed to 16 bits; " if prop == 'C01' else "") + "at most 2 factors in the ordered dictionary; any children (6 abstract objects, any sharing)"))
+            continue
         if cls == 5:
             # the 64-bit mixing of Add::__hash__ (xor of per-term combined hashes) does not finish within 600 s on any back end:
             # bounded stand-in with hash_t narrowed to 16 bits (which fields feed the hash is what eq => hash depends on, not the width)
